@@ -252,6 +252,7 @@ pub fn run(tier: &str) -> Result<Report, String> {
             vec![("formula-0".into(), empty.clone())],
             vec![("formula-0".into(), unit.clone()), ("a".into(), fam_sets[0].clone())],
             vec![("a".into(), fam_sets[0].clone()), ("x_1".into(), fam_sets[1].clone()), ("A.b".into(), fam_sets[2].clone()), ("formula-0".into(), results.first().cloned().unwrap_or(empty.clone()))],
+            vec![("run.2.fixed".into(), fam_sets[1].clone()), ("dom 1".into(), fam_sets[0].clone()), ("x-y".into(), unit.clone()), ("é_2".into(), fam_sets[2].clone()), ("BDD".into(), empty.clone()), ("a.bdd".into(), fam_sets[0].clone())],
             fam_sets.iter().enumerate().map(|(i, s)| (format!("s{i}"), s.clone())).chain(results.iter().enumerate().map(|(i, s)| (format!("formula-{i}"), s.clone()))).collect(),
         ];
         for fmt in ["aeon", "aeon-reversed", "sbml", "bnet"] {
@@ -303,6 +304,6 @@ pub fn run(tier: &str) -> Result<Report, String> {
         }
     }
     rep.sample(json!({"network": "con2", "format": "sbml", "k": 2, "labels": ["a", "x_1", "A.b", "formula-0"], "formulae_lines": 3}));
-    rep.rule = format!("networks {which:?} x input format (aeon, aeon with reversed line order, sbml, bnet where the format reproduces the network exactly) x k in {ks:?} x 5 label->set maps (empty map, empty set, unit set, colour-dependent/empty-for-some-colours/colour-disjoint family sets, raw results; labels formula-0, a, x_1, A.b, s0..) x 4 formula lists (0-3 lines): build_result_archive -> independent unzip (entry list exact, formulae.txt lines) -> model.aeon re-parsed, symbolic context compared by variable names -> load_bdd_bundle -> every set compared point-wise on all (state, valid colour) pairs and as BDD -> reloaded sets used as wild-card/domain context of three extended formulae; plus analyse_formulae archives: entry formula-i equals the result of line i. distinct_nontrivial = round-trip cases with at least one set");
+    rep.rule = format!("networks {which:?} x input format (aeon, aeon with reversed line order, sbml, bnet where the format reproduces the network exactly) x k in {ks:?} x 6 label->set maps (empty map, empty set, unit set, colour-dependent/empty-for-some-colours/colour-disjoint family sets, raw results; labels formula-0, a, x_1, A.b, run.2.fixed, 'dom 1', x-y, é_2, BDD, a.bdd, s0..) x 4 formula lists (0-3 lines): build_result_archive -> independent unzip (entry list exact, formulae.txt lines) -> model.aeon re-parsed, symbolic context compared by variable names -> load_bdd_bundle -> every set compared point-wise on all (state, valid colour) pairs and as BDD -> reloaded sets used as wild-card/domain context of three extended formulae; plus analyse_formulae archives: entry formula-i equals the result of line i. distinct_nontrivial = round-trip cases with at least one set");
     Ok(rep)
 }
